@@ -45,7 +45,7 @@ def apply_edit(d, e, r):
     elif k == "out":
         o = d["vout"][e["j"] - 1]
         if e["f"] == "value":
-            o["value"] += 1
+            o["value"] = o["value"] + 1 if o["value"] < 2 ** 63 - 1 else o["value"] - 1
         else:
             o["script"] = o["script"] + b"\x61"
     elif k == "ver":
